@@ -72,6 +72,8 @@ Cases ==
             p \in {<<S(<<49>>), NumV(1)>>, <<NumV(1), S(<<49>>)>>, <<BoolV(TRUE), S(<<116, 114, 117, 101>>)>>, <<S(<<116, 114, 117, 101>>), BoolV(TRUE)>>,
                    <<NumV(3), S(<<51>>)>>, <<S(<<45, 49>>), NumV(-1)>>},
             a \in {S(<<109, 100, 53>>), S(<<115, 104, 97, 49>>), S(<<104, 101, 120>>), S(<<98, 97, 115, 101, 54, 52>>)}}
+  \* what DATERANGE returns is an array like any other: FIRST / LAST / UNWIND apply to it
+  \cup {Case("daterange", Nest(f, CallN("daterange", 2), <<>>), <<a, b>>, NoC) : f \in {"first", "last", "unwind"}, a \in Dates \ {S(<<>>)}, b \in Dates}
   \* one array heading two UNWIND arguments in one select list: each result has its own tail
   \cup {Case("unwind2", [k |-> "fn", f |-> "array", args |-> <<Nest("unwind", [k |-> "fn", f |-> "array", args |-> <<ColN(1), ColN(2)>>], <<>>),
                                                                 Nest("unwind", [k |-> "fn", f |-> "array", args |-> <<ColN(1), ColN(3)>>], <<>>)>>],
